@@ -53,23 +53,27 @@ type VC struct {
 	nfr   int
 	Obls  []*Obl
 
-	Unsupported []string
-	Errors      []string // contract does not apply (UNDECIDED)
-	exits       []*Term  // reach terms of normal returns
-	loopGuards  []*Term
-	oblNames    map[string]int
-	frames      int
-	axiomsDone  bool
-	usedTrusted map[string]bool
-	inlined     map[string]bool
-	callCount   map[string]int
-	extraDecls  []string
-	pre         [2]string // SMT preamble in this VC's float mode (without / with the multiset axiom)
+	Unsupported    []string
+	Errors         []string // contract does not apply (UNDECIDED)
+	exits          []*Term  // reach terms of normal returns
+	loopGuards     []*Term
+	oblNames       map[string]int
+	frames         int
+	axiomsDone     bool
+	usedTrusted    map[string]bool
+	inlined        map[string]bool
+	callCount      map[string]int
+	extraDecls     []string
+	valueSolver    string
+	noEngineAxioms bool      // value queries: drop the engine's quantified heap axioms (set after a failed attempt)
+	pre            [2]string // SMT preamble in this VC's float mode (without / with the multiset axiom)
 }
 
 func (vc *VC) preambleFor(withMS bool) string {
 	if vc.pre[0] == "" {
+		vc.e.seqAxioms = vc.usesAxiom("seq_ext")
 		vc.pre[0], vc.pre[1] = vc.e.preamble(false), vc.e.preamble(true)
+		vc.e.seqAxioms = false
 	}
 	if withMS {
 		return vc.pre[1]
@@ -166,15 +170,57 @@ func (vc *VC) sv(st *State, name, sort string) *Term {
 	if t, ok := st.m[name]; ok {
 		return t
 	}
-	n := smtName(name) + "!0"
-	vc.declare(n, sort)
-	return A(n)
+	return vc.svInit(name, sort)
 }
 
 func (vc *VC) svInit(name, sort string) *Term {
 	n := smtName(name) + "!0"
-	vc.declare(n, sort)
+	if _, seen := vc.sorts[n]; !seen {
+		vc.declare(n, sort)
+		if name != allocVar {
+			vc.closure(nil, name, A(n), vc.svInit(allocVar, ArrSort("Int", "Bool")))
+		} else {
+			vc.cmds = append(vc.cmds, "(assert (not (select "+n+" 0)))")
+		}
+		return A(n)
+	}
 	return A(n)
+}
+
+// closure states Go's memory safety invariant for one reference-valued state variable:
+// every reference stored in an allocated object (or backing array, or map) is nil or allocated.
+func (vc *VC) closure(st *State, name string, arr, alloc *Term) {
+	kind := vc.e.leafKindOf(name)
+	if kind != "ref" && kind != "sb" && kind != "map" {
+		return
+	}
+	a, al := arr.String(), alloc.String()
+	if kind == "sb" && strings.HasSuffix(name, "#b") && (strings.HasPrefix(name, "H.") || strings.HasPrefix(name, "M.")) {
+		// slice headers stored in allocated objects are well-shaped
+		stem := name[:len(name)-2]
+		srt := vc.sorts[a]
+		sib := func(sfx string) string {
+			if st == nil {
+				return vc.svInit(stem+sfx, srt).String()
+			}
+			vc.noteSort(stem+sfx, srt)
+			return vc.sv(st, stem+sfx, srt).String()
+		}
+		o, l, c := sib("#o"), sib("#l"), sib("#c")
+		if strings.HasPrefix(name, "H.") {
+			vc.cmds = append(vc.cmds, fmt.Sprintf("(assert (forall ((r Int)) (! (=> (select %s r) (and (<= 0 (select %s r)) (<= 0 (select %s r)) (<= (select %s r) (select %s r)) (=> (= (select %s r) 0) (and (= (select %s r) 0) (= (select %s r) 0))))) :pattern ((select %s r)) :pattern ((select %s r))))) ;E", al, o, l, l, c, a, l, c, a, l))
+		}
+	}
+	switch {
+	case strings.HasPrefix(name, "H."):
+		vc.cmds = append(vc.cmds, fmt.Sprintf("(assert (forall ((r Int)) (! (=> (select %s r) (or (= (select %s r) 0) (select %s (select %s r)))) :pattern ((select %s r))))) ;E", al, a, al, a, a))
+	case strings.HasPrefix(name, "M."):
+		vc.cmds = append(vc.cmds, fmt.Sprintf("(assert (forall ((b Int) (p Int)) (! (=> (select %s b) (or (= (select (select %s b) p) 0) (select %s (select (select %s b) p)))) :pattern ((select (select %s b) p))))) ;E", al, a, al, a, a))
+	case strings.HasPrefix(name, "MV.") && vc.sorts["sort:"+name] == ArrSort("Int", ArrSort("Int", "Int")):
+		vc.cmds = append(vc.cmds, fmt.Sprintf("(assert (forall ((b Int) (p Int)) (! (=> (select %s b) (or (= (select (select %s b) p) 0) (select %s (select (select %s b) p)))) :pattern ((select (select %s b) p))))) ;E", al, a, al, a, a))
+	case strings.HasPrefix(name, "G."):
+		vc.cmds = append(vc.cmds, fmt.Sprintf("(assert (or (= %s 0) (select %s %s)))", a, al, a))
+	}
 }
 
 func (vc *VC) stateSort(name string) string {
@@ -327,6 +373,9 @@ func (vc *VC) script(o *Obl, withModel bool) string {
 }
 
 func (vc *VC) usesMS(n int, goal *Term) bool {
+	if vc.usesAxiom("seq_ext") {
+		return true
+	}
 	if goal != nil && strings.Contains(goal.String(), "msOfF") {
 		return true
 	}
@@ -368,6 +417,17 @@ func (e *Engine) preamble(withMS bool) string {
 	sb.WriteString("(declare-fun msOfF ((Array Int " + e.FloatSort + ") Int Int) MSet)\n(declare-fun msOfI ((Array Int Int) Int Int) MSet)\n")
 	if withMS {
 		sb.WriteString("(assert (forall ((a (Array Int " + e.FloatSort + ")) (oa Int) (b (Array Int " + e.FloatSort + ")) (ob Int) (n Int)) (! (=> (forall ((k Int)) (=> (and (<= 0 k) (< k n)) (= (select a (+ oa k)) (select b (+ ob k))))) (= (msOfF a oa n) (msOfF b ob n))) :pattern ((msOfF a oa n) (msOfF b ob n)))))\n")
+	}
+	sb.WriteString("(declare-sort VSeq 0)\n(declare-fun seqOfF ((Array Int " + e.FloatSort + ") Int Int) VSeq)\n(declare-fun seqOfI ((Array Int Int) Int Int) VSeq)\n")
+	sb.WriteString("(declare-fun seqAtF (VSeq Int) " + e.FloatSort + ")\n(declare-fun seqAtI (VSeq Int) Int)\n(declare-fun seqLen (VSeq) Int)\n")
+	if withMS && e.seqAxioms {
+		for _, x := range [][2]string{{"F", e.FloatSort}, {"I", "Int"}} {
+			f, srt := "seqOf"+x[0], x[1]
+			// extensionality (pointwise equal => equal), element access and length
+			sb.WriteString("(assert (forall ((a (Array Int " + srt + ")) (oa Int) (b (Array Int " + srt + ")) (ob Int) (n Int)) (! (=> (forall ((k Int)) (=> (and (<= 0 k) (< k n)) (= (select a (+ oa k)) (select b (+ ob k))))) (= (" + f + " a oa n) (" + f + " b ob n))) :pattern ((" + f + " a oa n) (" + f + " b ob n)))))\n")
+			sb.WriteString("(assert (forall ((a (Array Int " + srt + ")) (oa Int) (n Int) (k Int)) (! (=> (and (<= 0 k) (< k n)) (= (seqAt" + x[0] + " (" + f + " a oa n) k) (select a (+ oa k)))) :pattern ((seqAt" + x[0] + " (" + f + " a oa n) k)))))\n")
+			sb.WriteString("(assert (forall ((a (Array Int " + srt + ")) (oa Int) (n Int)) (! (=> (<= 0 n) (= (seqLen (" + f + " a oa n)) n)) :pattern ((" + f + " a oa n)))))\n")
+		}
 	}
 	sb.WriteString("(declare-fun f2i (" + e.FloatSort + ") Int)\n")
 	if e.FloatSort == "Real" {
